@@ -12,6 +12,9 @@
        exactly the emitted bindings, the emitted imports); serialising THAT store gives the identical text
        (C06_roundtrip_text), except for sections printing only "# None." (C06_none_section_refuted: the
        recorded finding F18 — the hypothesis of the theorem is exactly its complement).
+     - header (repaired code): unique modules and bound names, the reserved symbol gin never bound under
+       dynamic registration, __gin__ feature statements first (C06_feature_statement_first; the original
+       order is refuted by C06_orig_header_order_refuted), idempotent on its own output.
    NOT proved in Coq (validated on the real parser and the real pprint/repr by the independent predicates
    of harness/props/c06.py): that parsing the emitted text does yield that store, i.e. that each emitted
    value text evaluates back to an equal value of the same type. *)
@@ -127,6 +130,105 @@ Theorem C06_import_names_unique : forall imports, List.length imports + 3 <= 10 
   NoDup (map bound_name (import_manager imports)).
 Proof. exact import_manager_unique_names. Qed.
 
+(* under dynamic registration the reserved symbol gin is never bound by a statement (repaired code) *)
+Theorem C06_import_gin_reserved : forall imports, List.length imports + 3 <= 10 ^ 20 ->
+  is_dynamic imports = true -> ~ In "gin" (map bound_name (import_manager imports)).
+Proof. exact import_manager_gin_reserved. Qed.
+Theorem C06_import_names_and_reserved_distinct : forall imports, List.length imports + 3 <= 10 ^ 20 ->
+  NoDup (names0 imports ++ map bound_name (import_manager imports)).
+Proof. exact import_manager_names_inv. Qed.
+Theorem C06_import_modules_sound : forall imports m,
+  In m (map i_module (import_manager imports)) -> In m (map i_module imports).
+Proof. exact import_manager_modules_sound. Qed.
+Theorem C06_import_dynamic_preserved : forall imports,
+  is_dynamic (sorted_imports (import_manager imports)) = is_dynamic imports.
+Proof. intros. rewrite is_dynamic_sorted_imports. apply is_dynamic_import_manager. Qed.
+Theorem C06_header_order_strict_total : strict_total sorted_key_ltb.
+Proof. exact sorted_key_ltb_strict_total. Qed.
+(* the header lists the __gin__ feature statements first, whatever the other module names are (repaired code) *)
+Theorem C06_feature_statement_first : forall imports,
+  exists l1 l2, sorted_imports (import_manager imports) = l1 ++ l2 /\
+    Forall (fun i => is_feature_module (i_module i) = true) l1 /\
+    Forall (fun i => is_feature_module (i_module i) = false) l2.
+Proof. exact SerialProofs2.C06_feature_statement_first. Qed.
+Theorem C06_feature_statement_before : forall imports i j,
+  In i (import_manager imports) -> is_feature_module (i_module i) = true ->
+  In j (import_manager imports) -> is_feature_module (i_module j) = false ->
+  exists a b c, sorted_imports (import_manager imports) = a ++ i :: b ++ j :: c.
+Proof. exact SerialProofs2.C06_feature_statement_before. Qed.
+(* the original code: "import Zmod" came before "from __gin__ import dynamic_registration" *)
+Theorem C06_orig_header_order_refuted :
+  let imports := [ {| i_module := "__gin__.dynamic_registration"; i_from := true; i_alias := None |};
+                   {| i_module := "Zmod"; i_from := false; i_alias := None |} ] in
+  map import_format (sorted_imports_orig (import_manager imports)) =
+    ["import Zmod"; "from __gin__ import dynamic_registration"] /\
+  map import_format (sorted_imports (import_manager imports)) =
+    ["from __gin__ import dynamic_registration"; "import Zmod"].
+Proof. exact SerialProofs2.C06_orig_header_order_refuted. Qed.
+Theorem C06_reserved_gin_realiased :
+  let dyn := {| i_module := "__gin__.dynamic_registration"; i_from := true; i_alias := None |} in
+  let ginc := {| i_module := "gin.config"; i_from := false; i_alias := None |} in
+  let zcx := {| i_module := "zcx"; i_from := false; i_alias := None |} in
+  map import_format (sorted_imports (import_manager [dyn; ginc; zcx])) =
+    ["from __gin__ import dynamic_registration"; "import gin.config as gin2"; "import zcx"] /\
+  map import_format (sorted_imports (import_manager [ginc; zcx])) = ["import gin.config"; "import zcx"].
+Proof. exact SerialProofs2.C06_reserved_gin_realiased. Qed.
+
+(* feature statements are added first (repaired code): they are never re-aliased *)
+Theorem C06_feature_statement_never_realiased : forall imports i,
+  In i imports -> is_feature_module (i_module i) = true ->
+  (forall j, In j imports -> i_module j = i_module i -> j = i) ->
+  ~ In (bound_name i) (names0 imports) ->
+  (forall j, In j imports -> is_feature_module (i_module j) = true -> i_module j <> i_module i ->
+     bound_name j <> bound_name i /\ forall k, bound_name j ^^ nat_str k <> bound_name i) ->
+  In i (import_manager imports) /\
+  exists i', In i' (import_manager imports) /\ i_module i' = i_module i /\ i_alias i' = i_alias i.
+Proof. exact SerialProofs2.C06_feature_statement_never_realiased. Qed.
+Theorem C06_enabling_statement_unchanged : forall imports,
+  In enabling_stmt imports ->
+  (forall j, In j imports -> i_module j = "__gin__.dynamic_registration" -> j = enabling_stmt) ->
+  (forall j, In j imports -> is_feature_module (i_module j) = true ->
+     i_module j <> "__gin__.dynamic_registration" -> bound_name j <> "dynamic_registration") ->
+  In enabling_stmt (import_manager imports).
+Proof. exact SerialProofs2.C06_enabling_statement_unchanged. Qed.
+Theorem C06_enabling_statement_unchanged_single : forall imports,
+  In enabling_stmt imports ->
+  (forall j, In j imports -> is_feature_module (i_module j) = true -> j = enabling_stmt) ->
+  In enabling_stmt (import_manager imports).
+Proof. exact SerialProofs2.C06_enabling_statement_unchanged_single. Qed.
+(* the original order of addition: the enabling statement itself was the one re-aliased *)
+Theorem C06_orig_enabling_statement_realiased :
+  let pkg := {| i_module := "Pkg.dynamic_registration"; i_from := true; i_alias := None |} in
+  map import_format (import_manager_orig [enabling_stmt; pkg]) =
+    ["from Pkg import dynamic_registration"; "from __gin__ import dynamic_registration as dynamic_registration2"] /\
+  map import_format (import_manager [enabling_stmt; pkg]) =
+    ["from __gin__ import dynamic_registration"; "from Pkg import dynamic_registration as dynamic_registration2"].
+Proof. exact SerialProofs2.C06_orig_enabling_statement_realiased. Qed.
+(* the order of addition is the pull-back of a strict total order on (not feature, (module, not from)) *)
+Theorem C06_import_add_order : strict_total import_sort_key_ltb /\
+  (forall a b, import_key_ltb a b = import_sort_key_ltb (import_sort_key a) (import_sort_key b)).
+Proof. split; [exact import_sort_key_ltb_strict_total | exact import_key_ltb_as_key]. Qed.
+(* the emitted statements are a fixed point of the manager *)
+Theorem C06_import_manager_idempotent : forall imports, List.length imports + 3 <= 10 ^ 20 ->
+  let imps' := sorted_imports (import_manager imports) in
+  import_manager imps' = imps' /\ sorted_imports (import_manager imps') = imps'.
+Proof. exact import_manager_idempotent. Qed.
+
+Print Assumptions C06_feature_statement_never_realiased.
+Print Assumptions C06_enabling_statement_unchanged.
+Print Assumptions C06_enabling_statement_unchanged_single.
+Print Assumptions C06_orig_enabling_statement_realiased.
+Print Assumptions C06_import_add_order.
+Print Assumptions C06_import_manager_idempotent.
+Print Assumptions C06_import_gin_reserved.
+Print Assumptions C06_import_names_and_reserved_distinct.
+Print Assumptions C06_import_modules_sound.
+Print Assumptions C06_import_dynamic_preserved.
+Print Assumptions C06_header_order_strict_total.
+Print Assumptions C06_feature_statement_first.
+Print Assumptions C06_feature_statement_before.
+Print Assumptions C06_orig_header_order_refuted.
+Print Assumptions C06_reserved_gin_realiased.
 Print Assumptions C06_order_independent.
 Print Assumptions C06_params_order_independent.
 Print Assumptions C06_params_sorted.
